@@ -37,6 +37,10 @@ def replay(case):
     import asyncio
     import ahb
     ahb.configure()
+    E._KM.clear(); E._KM_INV.clear()
+    for k, v in (case.get("keymap") or {}).items():
+        E._KM[int(k)] = v
+        E._KM_INV[v] = int(k)
     got = asyncio.run(E.eval_real(case["expr"], {int(k): v for k, v in case["asg"].items()}))
     print("expression:", case["expr"], "assignment:", case["asg"])
     print("code:", got, "expected:", case.get("expected"), "spec error:", case.get("spec_err"))
